@@ -1,12 +1,15 @@
 //! kv — model-checking engines for finfet/kestrel. See /verif/DESIGN.md.
 #![allow(clippy::too_many_arguments, clippy::type_complexity)]
 
+#[cfg(feature = "inproc")]
 #[allow(dead_code)]
 #[path = "/repo/src/cli/src/errors.rs"]
 mod errors;
+#[cfg(feature = "inproc")]
 #[allow(dead_code)]
 #[path = "/repo/src/cli/src/keyring.rs"]
 mod keyring;
+mod kra;
 
 mod env;
 mod fx;
